@@ -115,15 +115,25 @@ def shrink(case):
 
 
 def classify(case, io, mo):
+    if case["enum"] == "bs" and isinstance(io, dict) and io.get("hang"):
+        return "c12_bee_search_never_returns"
     if not isinstance(io, dict) or "ended" not in io or mo is None:
         return None
+    if case["enum"] == "bs" and "merges" in case and mo["nodup"] == 1 and mo["members"] == 1 and mo["no_merged_after"] == 0:
+        return "c12_bee_search_merge_yields_containing"
     valid_prefix = mo["nodup"] == 1 and mo.get("first_bad", -1) == -1 and mo.get("members", 1) == 1 \
         and mo.get("no_merged_after", 1) == 1
     if case["enum"] == "bs" and io.get("ended") == "timeout" and valid_prefix:
         return "c12_bee_search_never_returns"
-    if "merges" in case and io.get("ended") == "stop" and mo["nodup"] == 1 and mo["members"] == 1:
-        if case["enum"] in ("hs", "hs_bucket") and mo["no_merged_after"] == 0 and not mo["missing"]:
-            return "c12_heap_search_yields_containing_merged"
+    stopped = io.get("ended") == "stop"
+    if "rejected" in case and stopped and valid_prefix and mo["missing"]:
+        if case["enum"] == "cd":
+            return "c12_cd_filter_loses_programs"
+        if case["enum"] in ("hs", "hs_bucket"):
+            return "c12_heap_search_filter_loses_programs"
+    if "merges" in case and stopped and mo["nodup"] == 1 and mo["members"] == 1:
+        if case["enum"] in ("hs", "hs_bucket") and (mo["no_merged_after"] == 0 or mo["missing"]):
+            return "c12_heap_search_merge_bookkeeping"
         if case["enum"] == "cd" and mo["no_merged_after"] == 1 and mo["missing"]:
             return "c12_cd_merge_loses_programs"
     return None
